@@ -452,6 +452,12 @@ def generate_methods(repo):
         L += ['import AnsiModel.Generated.Methods.%s' % (d[0].upper() + d[1:]) for d in deps]
         L += ['', 'namespace Gen', '', text, 'end Gen', '']
         files['Methods/%s.lean' % mod] = '\n'.join(L)
+    try:                    # the free functions of ansi_parsing.py (pyparse.py); a failure there leaves the files above as they are
+        import pyparse
+        files.update(pyparse.generate(repo))
+        names = names + pyparse.MODULES
+    except Exception:
+        pass
     files['Methods.lean'] = '\n'.join(['/-  GENERATED by harness/translate.py — do not edit.  All translated methods. -/'] +
                                       ['import AnsiModel.Generated.Methods.%s' % (n[0].upper() + n[1:]) for n in names] + [''])
     return files
